@@ -548,7 +548,16 @@ static void do_proof(World &W, const ProofSpec &ps_in, const Fault &f, bool chun
 	}
 	if (pos.empty()) return;
 	std::pair<int, size_t> target = pos[(size_t)f.a % pos.size()];
-	int mk = (int)(f.b % 5); // 0 +1, 1 zero, 2 swap with next line of the direction, 3 structured token, 4 out of range
+	int mk = (int)(f.b % 7); // 0 +1, 1 zero, 2 swap with next line, 3 structured token, 4 out of range, 5 minus q, 6 duplicate index
+	if (mk == 5) mk = 6;       // (5 is used internally for value+p)
+	else if (mk == 6) mk = 12;
+	if (mk == 6)
+	{
+		// the negative representative value-q on a prover->verifier line: never a value the protocol sends
+		std::vector<std::pair<int, size_t> > p0;
+		for (size_t i = 0; i < pos.size(); i++) if (pos[i].first == 0) p0.push_back(pos[i]);
+		if (p0.empty()) mk = 0; else target = p0[(size_t)f.a % p0.size()];
+	}
 	if (mk == 4)
 	{
 		// value+q on the response of the equality-of-logarithms proofs and value+p on the transmitted
@@ -580,6 +589,23 @@ static void do_proof(World &W, const ProofSpec &ps_in, const Fault &f, bool chun
 			if (mk == 10) { cut = true; fired = true; size_t keep = line.empty() ? 0 : (size_t)f.c % line.size(); if (keep) out.push_back(line.substr(0, keep)); return; }
 			if (mk == 11) { if (resize_stacksecret(line, m)) { out.push_back(m); fired = true; return; } }
 			else if (mk == 2) { pending = line; have_pending = true; return; }
+			else if (mk == 6)
+			{
+				Z v; if (line.find_first_not_of("0123456789ABCDEFGHIJKLMNOPQRSTUVWXYZabcdefghijklmnopqrstuvwxyz") == std::string::npos &&
+					mpz_set_str(v, line.c_str(), TMCG_MPZ_IO_BASE) == 0 && mpz_cmp(v, W.P[0].vtmf->q) < 0 && mpz_sgn((mpz_srcptr)v) > 0)
+				{ mpz_sub(v, v, W.P[0].vtmf->q); out.push_back(v.io()); fired = true; return; }
+			}
+			else if (mk == 12)
+			{
+				TMCG_StackSecret<VTMF_CardSecret> ss;
+				if (line.compare(0, 4, "sts^") == 0 && ss.import(line) && ss.size() >= 2)
+				{
+					size_t a = (size_t)f.c % ss.size(), b = (a + 1 + (size_t)(f.c >> 4) % (ss.size() - 1)) % ss.size();
+					TMCG_StackSecret<VTMF_CardSecret> t;
+					for (size_t i = 0; i < ss.size(); i++) t.push(i == a ? ss[b].first : ss[i].first, ss[i].second);
+					std::ostringstream o; o << t; out.push_back(o.str()); fired = true; return;
+				}
+			}
 			else if (mk == 4 || mk == 5)
 			{
 				Z v; if (mpz_set_str(v, line.c_str(), TMCG_MPZ_IO_BASE) == 0)
@@ -599,7 +625,15 @@ static void do_proof(World &W, const ProofSpec &ps_in, const Fault &f, bool chun
 	W.S.party[ps.prover] = snapP; W.S.party[ps.verifier] = snapV;
 	Outcome o = run_session(W, ps.prover, ps.verifier, prover_role(W, ps, false), verifier_role(W, ps, &st), relay, chunked);
 	if (!fired) return;
-	W.res.cnt[mk == 10 ? "fault.mitm_trunc" : (mk == 11 ? "fault.mitm_resize_secret" : (mk == 2 ? "fault.mitm_swap" : (mk >= 4 ? "fault.mitm_out_of_range" : "fault.mitm_mut")))]++;
+	W.res.cnt[mk == 10 ? "fault.mitm_trunc" : (mk == 11 ? "fault.mitm_resize_secret" : (mk == 2 ? "fault.mitm_swap" : (mk == 12 ? "fault.mitm_dup_index_secret" : (mk == 6 ? "fault.mitm_minus_q" : (mk >= 4 ? "fault.mitm_out_of_range" : "fault.mitm_mut")))))]++;
+	if (mk == 6)
+	{
+		// negative representatives: the verifiers state |v| < q (mpz_cmpabs), so value-q is accepted at many
+		// positions by design; it is asserted only where every transmitted value enters a Fiat-Shamir hash
+		// literally (non-interactive shuffle argument), elsewhere it is recorded
+		W.res.cnt[std::string("probe.minusq_") + (o.vret == 1 ? "accepted_" : "refused_") + kind_name(ps.kind) + "_v" + std::to_string(ps.variant)]++;
+		if (!(ps.kind == K_GROTH && ps.variant == 1)) return;
+	}
 	if (o.vret == 1)
 	{
 		std::ostringstream d; d << "line " << target.second << " of direction " << (target.first ? "verifier->prover" : "prover->verifier")
